@@ -56,6 +56,22 @@ func newSuperGraph(root *ssa.Function) *superGraph {
 			if c.Call.IsInvoke() {
 				return
 			}
+			// a local function held in a variable (assigned once) and called from here or from a
+			// closure that captured the variable
+			if u, ok := c.Call.Value.(*ssa.UnOp); ok && u.Op == token.MUL {
+				if cell := cellOf(u.X); cell != nil {
+					if sts := storesTo(cell); len(sts) == 1 {
+						if mc, ok := sts[0].val.(*ssa.MakeClosure); ok {
+							if g := mc.Fn.(*ssa.Function); fam[g] {
+								count[g]++
+								sg.callSite[g] = c
+								sg.sites[g] = append(sg.sites[g], c)
+								return
+							}
+						}
+					}
+				}
+			}
 			// a transparent helper (a former closure that became a function) with one call site
 			if g, ok := c.Call.Value.(*ssa.Function); ok && fam[originFn(g)] && isHelper(g) {
 				count[originFn(g)]++
